@@ -81,6 +81,11 @@ struct Shared {
     /// if Some(n): the n-th write (0-based) and all later ones fail with the kind
     fail_write_at: Option<(usize, IoKind)>,
     writes_seen: usize,
+    /// back-pressure: once this many bytes have been accepted in total, the transport accepts
+    /// nothing more for the given time (a write that crosses the mark is accepted in part)
+    write_stall: Option<(usize, Duration)>,
+    stall_until: Option<Duration>,
+    total_written: usize,
     reads_polled: u64,
     closed: bool,
     dropped: bool,
@@ -97,6 +102,7 @@ pub struct IoHandle {
 pub struct ScriptIo {
     shared: Arc<Mutex<Shared>>,
     sleep: Option<Pin<Box<tokio::time::Sleep>>>,
+    wsleep: Option<Pin<Box<tokio::time::Sleep>>>,
 }
 
 impl Drop for ScriptIo {
@@ -125,6 +131,9 @@ pub fn script_io(
         written: Vec::new(),
         fail_write_at,
         writes_seen: 0,
+        write_stall: None,
+        stall_until: None,
+        total_written: 0,
         reads_polled: 0,
         closed: false,
         dropped: false,
@@ -134,6 +143,7 @@ pub fn script_io(
         ScriptIo {
             shared: shared.clone(),
             sleep: None,
+            wsleep: None,
         },
         IoHandle { shared },
     )
@@ -178,6 +188,10 @@ impl IoHandle {
         if let Some(w) = g.waker.take() {
             w.wake();
         }
+    }
+    /// back-pressure: after `after` bytes in total nothing is accepted for `dur`
+    pub fn set_write_stall(&self, after: usize, dur: Duration) {
+        self.shared.lock().unwrap().write_stall = Some((after, dur));
     }
     /// elapsed virtual time since the transport was created
     pub fn now(&self) -> Duration {
@@ -262,12 +276,46 @@ impl AsyncRead for ScriptIo {
 
 impl AsyncWrite for ScriptIo {
     fn poll_write(
-        self: Pin<&mut Self>,
-        _cx: &mut Context<'_>,
+        mut self: Pin<&mut Self>,
+        cx: &mut Context<'_>,
         data: &[u8],
     ) -> Poll<io::Result<usize>> {
-        let mut g = self.shared.lock().unwrap();
+        let this = &mut *self;
+        let mut g = this.shared.lock().unwrap();
         let now = Instant::now() - g.start;
+        // back-pressure
+        let mut data = data;
+        if let Some((after, dur)) = g.write_stall {
+            if g.total_written <= after && g.total_written + data.len() > after {
+                let n = after - g.total_written;
+                if n == 0 {
+                    g.write_stall = None;
+                    g.stall_until = Some(now + dur);
+                } else {
+                    data = &data[..n];
+                }
+            }
+        }
+        if let Some(until) = g.stall_until {
+            if now < until {
+                let deadline = g.start + until;
+                drop(g);
+                let mut sleep = Box::pin(tokio::time::sleep_until(deadline));
+                return match sleep.as_mut().poll(cx) {
+                    Poll::Ready(()) => {
+                        cx.waker().wake_by_ref();
+                        Poll::Pending
+                    }
+                    Poll::Pending => {
+                        this.wsleep = Some(sleep);
+                        Poll::Pending
+                    }
+                };
+            }
+            g.stall_until = None;
+            this.wsleep = None;
+        }
+        g.total_written += data.len();
         let idx = g.writes_seen;
         g.writes_seen += 1;
         if let Some((n, kind)) = g.fail_write_at {
